@@ -1,9 +1,28 @@
 #!/bin/sh
 # Build the whole framework from files on disk only (offline).  Run once in /verif after a fresh restore.
-set -e
+# Every ./check rebuilds what it needs anyway; this only warms the caches, so a failure of one target
+# does not stop the others.
 cd "$(dirname "$0")"
 export CARGO_NET_OFFLINE=true PUBLISH_SKIP_BUILD=1
+mkdir -p .work evidence replays
 python3 tools/extract_consts.py
-(cd lean && lake build RioModel $(python3 -c "import json,glob; print(\" \".join(sorted({x for f in glob.glob(\"../props/*.json\") for j in [json.load(open(f))] for x in [j[\"lean_module\"], j.get(\"driver\") or \"\"] if x})))"))
-(cd harness && cargo build --bins)
+TARGETS=$(python3 - <<'PY'
+import glob, json
+t = set()
+for f in glob.glob("props/C*.json"):
+    j = json.load(open(f))
+    if j.get("claimed", True):
+        t.add(j["lean_module"])
+        if j.get("driver"):
+            t.add(j["driver"])
+print(" ".join(sorted(t)))
+PY
+)
+BINS=$(python3 - <<'PY'
+import glob, json
+print(" ".join(sorted({"--bin " + json.load(open(f))["harness_bin"] for f in glob.glob("props/C*.json") if json.load(open(f)).get("claimed", True)})))
+PY
+)
+(cd lean && lake build RioModel $TARGETS) || echo "setup: lake build reported errors (each check rebuilds its own targets)"
+(cd harness && cargo build $BINS) || echo "setup: cargo build reported errors (each check rebuilds its own binary)"
 echo setup done
